@@ -48,6 +48,7 @@ type MapEntry struct {
 	deleted bool
 }
 type Map struct {
+	epoch   int // path epoch in which this map was created or last snapshotted
 	entries []*MapEntry
 	idx     map[string]int // concrete-key index
 	symKeys int            // number of live entries with non-concrete keys
@@ -112,7 +113,13 @@ func (in *Interp) saveMap(m *Map) {
 		}
 		return
 	}
-	// copy-on-write snapshot (maps in yae are small)
+	// One snapshot per map and path is enough (the only rollback is the one
+	// to the start of the path), and a map created on this path needs none:
+	// snapshotting on every store made filling a map quadratic.
+	if m.epoch == in.epoch {
+		return
+	}
+	m.epoch = in.epoch
 	ents := make([]*MapEntry, len(m.entries))
 	for i, e := range m.entries {
 		cp := *e
